@@ -207,7 +207,51 @@ breaking('NZ2-seed-C16-r3m3', {'C16': 'NZ2'}, patch='/verif/selftest/patches/see
 breaking('Q7-seed-C19-r3m1', {'C19': 'Q7'}, patch='/verif/selftest/patches/seed_C19_r3m1.diff')
 breaking('Q2-seed-C19-r3m2', {'C19': 'Q2'}, patch='/verif/selftest/patches/seed_C19_r3m2.diff')
 breaking('IT1-seed-C19-r3m3', {'C19': 'IT1'}, patch='/verif/selftest/patches/seed_C19_r3m3.diff')
+breaking('W3-seed-C02-r3m1', {'C01': 'W3', 'C02': 'W3'}, patch='/verif/selftest/patches/seed_C02_r3m1.diff')
+breaking('B1-seed-C02-r3m2', {'C01': 'B1'}, patch='/verif/selftest/patches/seed_C02_r3m2.diff')
+breaking('W8-seed-C02-r3m3', {'C02': 'W8'}, patch='/verif/selftest/patches/seed_C02_r3m3.diff')
+breaking('HM4-seed-C06-r3m1', {'C06': 'HM4'}, patch='/verif/selftest/patches/seed_C06_r3m1.diff')
+breaking('SDP1-seed-C06-r3m2', {'C06': 'SDP1'}, patch='/verif/selftest/patches/seed_C06_r3m2.diff')
+breaking('DF1-seed-C06-r3m3', {'C06': 'DF1'}, patch='/verif/selftest/patches/seed_C06_r3m3.diff')
+breaking('E5-seed-C08-r3m1', {'C08': 'E5'}, patch='/verif/selftest/patches/seed_C08_r3m1.diff')
+breaking('ST2-seed-C08-r3m2', {'C08': 'ST2'}, patch='/verif/selftest/patches/seed_C08_r3m2.diff')
+breaking('ID1-seed-C08-r3m3', {'C08': 'ID1'}, patch='/verif/selftest/patches/seed_C08_r3m3.diff')
+breaking('EL1-seed-C09-r3m1', {'C09': 'EL1'}, patch='/verif/selftest/patches/seed_C09_r3m1.diff')
+breaking('DT5-seed-C09-r3m2', {'C09': 'DT5'}, patch='/verif/selftest/patches/seed_C09_r3m2.diff')
+breaking('MR1-seed-C09-r3m3', {'C09': 'MR1'}, patch='/verif/selftest/patches/seed_C09_r3m3.diff')
+breaking('N2-seed-C10-r3m1', {'C10': 'N2'}, patch='/verif/selftest/patches/seed_C10_r3m1.diff')
+breaking('S8-seed-C10-r3m2', {'C10': 'S8'}, patch='/verif/selftest/patches/seed_C10_r3m2.diff')
+breaking('M3-seed-C11-r3m1', {'C11': 'M3'}, patch='/verif/selftest/patches/seed_C11_r3m1.diff')
+breaking('M3-seed-C11-r3m2b', {'C11': 'M3'}, patch='/verif/selftest/patches/seed_C11_r3m2.diff')
+breaking('PU2-seed-C11-r3m3', {'C11': 'PU2'}, patch='/verif/selftest/patches/seed_C11_r3m3.diff')
+breaking('F6-seed-C13-r3m1', {'C13': 'F6'}, patch='/verif/selftest/patches/seed_C13_r3m1.diff')
+breaking('F7-seed-C13-r3m2', {'C13': 'F7'}, patch='/verif/selftest/patches/seed_C13_r3m2.diff')
+breaking('V3-seed-C13-r3m3', {'C13': 'V3'}, patch='/verif/selftest/patches/seed_C13_r3m3.diff')
+breaking('MC2-seed-C14-r3m1', {'C14': 'MC2'}, patch='/verif/selftest/patches/seed_C14_r3m1.diff')
+breaking('SO1-seed-C14-r3m2', {'C14': 'SO1'}, patch='/verif/selftest/patches/seed_C14_r3m2.diff')
+breaking('UP1-seed-C14-r3m3', {'C14': 'UP1'}, patch='/verif/selftest/patches/seed_C14_r3m3.diff')
+breaking('FZ1-seed-C15-r3m1', {'C15': 'FZ1'}, patch='/verif/selftest/patches/seed_C15_r3m1.diff')
+breaking('FW1-seed-C15-r3m2', {'C15': 'FW1'}, patch='/verif/selftest/patches/seed_C15_r3m2.diff')
+breaking('DT6-seed-C15-r3m3', {'C15': 'DT6'}, patch='/verif/selftest/patches/seed_C15_r3m3.diff')
+breaking('AR3-seed-C17-r3m2', {'C17': 'AR3', 'C01': 'AR3'}, patch='/verif/selftest/patches/seed_C17_r3m2.diff')
+breaking('F8-seed-C18-r3m1', {'C18': 'F8'}, patch='/verif/selftest/patches/seed_C18_r3m1.diff')
+breaking('RP1-seed-C18-r3m2', {'C18': 'RP1'}, patch='/verif/selftest/patches/seed_C18_r3m2.diff')
+breaking('O3B-seed-C18-r3m3', {'C18': 'O3B'}, patch='/verif/selftest/patches/seed_C18_r3m3.diff')
+breaking('DT4-seed-C20-r3m2', {'C20': 'DT4'}, patch='/verif/selftest/patches/seed_C20_r3m2.diff')
+breaking('EV1-seed-C20-r3m3', {'C20': 'EV1'}, patch='/verif/selftest/patches/seed_C20_r3m3.diff')
 breaking('refix-get_gme_2qubit', {'C13': 'F2', 'C05': 'F2'}, patch_reverse='fix_78cd862.diff')
+
+# ---- behaviour-preserving edits for the second half of the round-3 rules
+preserving('hm4-ket-first-renamed', ['C06', 'C10'], [(M + 'random/_internal.py', "tmp1 = [[(y[:,:,np.newaxis]*y[:,np.newaxis].conj()) for y in x] for x in unitary]", "tmp1 = [[(y[:,np.newaxis].conj()*y[:,:,np.newaxis]) for y in x] for x in unitary]")])
+preserving('sdp1-early-none-guard', ['C06', 'C05'], [(M + 'entangle/symext.py', "    dm_norm = numqi.gellmann.dm_to_gellmann_norm(rho)\n    tmp0 = (rho - np.eye(dimA*dimB)/(dimA*dimB))/dm_norm.reshape(-1,1,1)", "    dm_norm = numqi.gellmann.dm_to_gellmann_norm(rho)\n    assert kext>=1\n    tmp0 = (rho - np.eye(dimA*dimB)/(dimA*dimB))/dm_norm.reshape(-1,1,1)")])
+preserving('e5-not-with-sign', ['C08'], [(M + 'gate/_pauli.py', "    if with_sign==False:\n        ret = ret[2:]", "    if not with_sign:\n        ret = ret[2:]")])
+preserving('st2-shape-before-asarray-view', ['C08'], [(M + 'gate/_pauli.py', "        shape = index.shape\n        index = index.reshape(-1)\n        if endianness_map", "        shape = tuple(index.shape)\n        index = index.reshape(-1)\n        if endianness_map")])
+preserving('s8-none-first-renamed', ['C10'], [(M + 'random/_public.py', "        seed = int(rng_or_seed)\n        ret = np.random.default_rng(seed)", "        ret = np.random.default_rng(int(rng_or_seed))")])
+preserving('m3-exit-renamed-tuple', ['C11'], [(M + 'sim/state.py', "    return bitstr,prob,q2", "    ret = bitstr,prob,q2\n    return ret[0],ret[1],q2")])
+preserving('v3-assert-message', ['C13'], [(M + 'entangle/measure.py', "        assert abs(EVL.sum()-1) < 1e-10\n        EVC = EVC[:,-self.rank:]\n        tmp0 = (EVC * np.sqrt(EVL)).reshape(*self.dim_list, self.rank)", "        assert abs(EVL.sum()-1) < 1e-10, 'rank too small for this state'\n        EVC = EVC[:,-self.rank:]\n        tmp0 = (EVC * np.sqrt(EVL)).reshape(*self.dim_list, self.rank)")])
+preserving('dt6-template-beta-copy', ['C15'], [(M + 'group/_lie.py', "    alpha = np.zeros_like(beta)\n    gamma = np.zeros_like(beta)\n    ind0 = beta<zero_eps", "    alpha = np.zeros_like(beta)\n    gamma = np.zeros(beta.shape, dtype=beta.dtype)\n    ind0 = beta<zero_eps")])
+preserving('f8-clip-kept-on-radicand', ['C18'], [(M + 'state/_internal.py', "    tmp0 = np.clip(alpha + (1-alpha)/(d*d), 0, 1)", "    fidelity = alpha + (1-alpha)/(d*d)\n    tmp0 = np.clip(fidelity, 0, 1)")])
+preserving('w8-softplus-allowed', ['C01', 'C02'], [(M + 'manifold/_stiefel.py', "    theta_list = [(theta[:,x:y,0],theta[:,x:y,1]) for x,y in zip([0]+tmp0,tmp0)]", "    theta_pairs = zip([0]+tmp0,tmp0)\n    theta_list = [(theta[:,x:y,0],theta[:,x:y,1]) for x,y in theta_pairs]")])
 
 # ---- textual breaking edits, one per rule family
 breaking('S3-ambient-draw', {'C10': 'S3'}, edit=[(M + 'random/_internal.py', "tmp0 = np_rng.normal(size=(N0,dim))\n    tmp0 = tmp0 / np.linalg.norm", "tmp0 = np.random.normal(size=(N0,dim))\n    tmp0 = tmp0 / np.linalg.norm")])
